@@ -119,6 +119,28 @@ func c02Case(t listTemplate, decs []chunk, blank bool, hist []editOp) (sig, what
 	if err != nil {
 		return "", "", false
 	}
+	if len(src)%13 == 5 {
+		// every thirteenth source in an equivalent hand-made representation: where the End decorations of a
+		// clause start with a line break followed by a comment (the comment that hangs at the end of the body),
+		// the line break is given as After spacing of the last statement instead
+		dst.Inspect(f, func(n dst.Node) bool {
+			var body []dst.Stmt
+			var end *dst.Decorations
+			switch x := n.(type) {
+			case *dst.CaseClause:
+				body, end = x.Body, &x.Decs.End
+			case *dst.CommClause:
+				body, end = x.Body, &x.Decs.End
+			}
+			if end != nil && len(body) > 0 && len(*end) >= 2 && (*end)[0] == "\n" && strings.HasPrefix((*end)[1], "//") {
+				if last := body[len(body)-1].Decorations(); last.After == dst.None && len(last.End) == 0 {
+					last.After = dst.NewLine
+					end.Replace((*end)[1:]...)
+				}
+			}
+			return true
+		})
+	}
 	la, lb := t.Lists(f)
 	if la.Len() != n || (lb.IsValid() && lb.Len() != n) {
 		return "", "", false
